@@ -6,16 +6,16 @@ From L4.model Require Import Select Health.
 Import ListNotations.
 Open Scope Z_scope.
 
-Definition N (z : Z) : nat := Z.to_nat z.
+Definition zn (z : Z) : nat := Z.to_nat z.
 
 (* events as the harness prints them *)
-Definition EFail (t p : Z) : tev := (t, DialFail (N p)).
-Definition EOpen (t u : Z) : tev := (t, Open (N u)).
-Definition EClose (t u : Z) : tev := (t, Close (N u)).
-Definition EProbe (t p : Z) (ok : bool) : tev := (t, Probe (N p) ok).
+Definition EFail (t p : Z) : tev := (t, DialFail (zn p)).
+Definition EOpen (t u : Z) : tev := (t, Open (zn u)).
+Definition EClose (t u : Z) : tev := (t, Close (zn u)).
+Definition EProbe (t p : Z) (ok : bool) : tev := (t, Probe (zn p) ok).
 
 Definition H (passive : bool) (fd mf : Z) (topo : list (list Z)) (mc : list Z) : hcfg :=
-  mkH passive fd mf (map (map N) topo) mc.
+  mkH passive fd mf (map (map zn) topo) mc.
 
 Definition A (kind e d j : Z) : att :=
   ((if kind =? 0 then ADialOk else if kind =? 1 then ADialErr e else ANoUpstream), d, j).
